@@ -51,6 +51,8 @@ def gen_graph(rng):
 
 
 def gen(tier, rng, harness=None, driver=None):
+    # definitions replaced between two prints (the list keeps its length): numbered, unique, referred to by ID
+    repl = ["!md.replace %d %d" % (n, i) for n in (1, 2, 3, 4) for i in range(n)]
     # specialised debug-info nodes: every field that references a numbered node must print that node's ID (`scope: !91`, `expr: !97`, ...),
     # and inline nodes must stay inline (the one-construct catalogue of C01, here for its reference fields)
     from . import catalog
@@ -80,7 +82,7 @@ def gen(tier, rng, harness=None, driver=None):
                 ex = [x for x in ids if x != -1]
                 if len(ex) == len(set(ex)):
                     lines.append("!md.uniq " + s)
-    return lines
+    return lines + repl
 
 
 def graph_text(desc):
